@@ -106,7 +106,7 @@ def gen_one(rng, i, tier):
     xaxis = rng.choice(BAD_AXES) if rng.random() < 0.04 else rng.choice(AXES)
     exact = stream == "exact"
     return {"stream": stream, "pos": pos, "neg": neg, "ep": ep, "en": en, "sc": sc, "ec": ec,
-            "xaxis": xaxis,
+            "xaxis": xaxis, "prior": rng.random() < 0.3,
             "fnr": _rates(rng, kf, exact, len(pos), len(pos) + ep),
             "fpr": _rates(rng, kp, exact, len(neg), len(neg) + en),
             "thr": _thresholds(rng, kt, pos, neg),
@@ -194,6 +194,13 @@ def build(inp) -> Case:
     if al:
         tags.append("list-args")
 
+    # an earlier roc() call on the SAME object with the x-axis of the opposite orientation (and the same support arguments):
+    # the judged call below must not depend on the object's call history (roc is a query, C10)
+    if inp.get("prior") and xaxis in AXES:
+        other = {"fnr": "fpr", "fpr": "fnr", "tnr": "tpr", "tpr": "tnr", "frr": "far", "far": "frr", "trr": "tar", "tar": "trr"}[xaxis]
+        kw0 = kwargs(nb); kw0["x_axis"] = other
+        common.call(roc, s, **kw0)
+        tags.append("prior-call")
     res = common.call(roc, s, **kwargs(nb))
     if res[0] == "exc":
         # exceptions are data: the model says whether one is expected
